@@ -3,6 +3,7 @@ CONSTANTS
   Names <- NamesQ
   Texts <- TextsQ
   CommentTexts <- CommentsQ
+  ContTexts <- ContQ
   DefLines <- Def
   CliLines <- Cli
   MaxLines = 3
